@@ -92,8 +92,16 @@ StartsFrom(crate, inp, m, fs, cur, acc) ==
                      Append(acc, [cur |-> cur, start |-> st, size |-> t.size, align |-> t.align,
                                   zla |-> f.ty.k \in {"arr", "unk"} /\ t.size = 0]))
 
+(* the vftable block is a statement like any other: the pointer it stands for occupies   *)
+(* one pointer-sized slot at the block's place in the description (d.vft.pos fields come  *)
+(* before it; 0 for every description the code accepts today)                            *)
 Starts(crate, inp, m, d) ==
-  StartsFrom(crate, inp, m, d.fields, IF OwnsVptr(inp, m, d) THEN crate.ptr ELSE 0, <<>>)
+  LET vp == IF OwnsVptr(inp, m, d) THEN crate.ptr ELSE 0
+      k == IF d.vft.has THEN Min(d.vft.pos, Len(d.fields)) ELSE 0
+  IN IF k = 0 THEN StartsFrom(crate, inp, m, d.fields, vp, <<>>)
+     ELSE LET pre == StartsFrom(crate, inp, m, SubSeq(d.fields, 1, k), 0, <<>>)
+              e == pre[k].start + (IF pre[k].size = None THEN 0 ELSE pre[k].size)
+          IN StartsFrom(crate, inp, m, SubSeq(d.fields, k + 1, Len(d.fields)), e + vp, pre)
 
 (* C01 for one type definition, against a crate (emitted by the model, or  *)
 (* observed): every named field sits at its declared offset                *)
